@@ -41,9 +41,19 @@ theorem exec_cases :
        "return return nil, protocol.NewFatalClientErr(nil, \"E_INVALID\", fmt.Sprintf(\"invalid command %s\", params[0]))"] := by
   decide
 
-/-- (the extractor collapses runs of blanks inside the printed expression: `"  V1"` prints as `" V1"`) -/
+/-- (audit C32) the command words of the MODEL, as bytes, are the words of the regenerated `case` labels of
+`Exec` (text read off the current source, compared character by character) — `Nsq.Tie.Registry.command_bytes`
+only compares Lean literals with Lean literals. The magic `"  V1"` is pinned by `magic_cases` below (the extractor keeps blanks inside string literals since B28) and by behaviour — the hostile generator sends
+streams starting with `" V1"`, `"  V1"`, `"  V2"`, `"  v1"`, … each followed by `PING`. -/
+theorem command_bytes_regenerated :
+    (LookupdProto.execCases.take 4).map String.toList =
+      [cmdPING, cmdIDENTIFY, cmdREGISTER, cmdUNREGISTER].map
+        (fun w => "case \"".toList ++ w.map (fun b => Char.ofNat b.toNat) ++ ['"']) := by decide
+
+/-- the four magic bytes are blank, blank, `V`, `1` (since audit round 7 / B28 the extractor keeps white space
+inside string literals: before, `"  V1"` was printed — and pinned — as `" V1"`) -/
 theorem magic_cases :
-    LookupdProto.magicCases = ["assign _, err := io.ReadFull(conn, buf)", "case \" V1\""] := by decide
+    LookupdProto.magicCases = ["assign _, err := io.ReadFull(conn, buf)", "case \"  V1\""] := by decide
 
 
 /-- The DB key of a connection (`PeerInfo.id`, unexported, so not a JSON member) is set once,
